@@ -39,6 +39,14 @@ def configs(tier, seed):
                         # names longer than any file-name limit one might think of: one file per array all the same
                         out.append(dict(h="export", op=form + "long", key=key + "/long_names", procs=procs, flows=[list(p) for p in fs], fdims=fdims, stocks=sc, form=form,
                                         name_prefix="material flows of the regional building stock model, scenario with extended lifetimes: "))
+                    if form == "csv" and rot == 0 and i % 3 == 1:
+                        # names with dots in them ("PM2.5", "v1.2"): still one file per array
+                        out.append(dict(h="export", op=form + "dots", key=key + "/dotted_names", procs=procs, flows=[list(p) for p in fs], fdims=fdims, stocks=sc, form=form,
+                                        name_prefix="PM2.5 plant v1.2 "))
+                    if form == "csv" and rot == 0 and i % 3 == 2:
+                        # flows first, then stocks, into ONE directory, with real files; flow names that end like a stock file
+                        out.append(dict(h="export", op=form + "dir", key=key + "/same_directory", procs=procs, flows=[list(p) for p in fs], fdims=fdims, stocks=sc, form=form,
+                                        same_directory=True, name_suffix=" in-use stock"))
                     if sc and i % 2 == 0 and form != "csv":
                         # a stock carrying the name of a flow (separate name spaces): both are exported, each under its kind
                         out.append(dict(h="export", op=form + "same", key=key + "/stock_named_like_flow", procs=procs, flows=[list(p) for p in fs], fdims=fdims, stocks=sc, form=form, stock_named_like_flow=True))
@@ -216,6 +224,22 @@ def run(cfg, w):
                 w.ob_arr_eq(f"stock_values[{name}]", got, ST)
             else:
                 _check_df(w, f"stock_df[{name}]", got, d, ST)
+    elif cfg.get("same_directory"):
+        # real files (their text is outside the claim, their existence is not): after both exports the directory holds one
+        # file per flow and one per exported stock quantity
+        tmp = tempfile.mkdtemp(prefix="flodym_c19_dir_")
+        try:
+            export_mfa_flows_to_csv(mfa, tmp)
+            after_flows = sorted(os.listdir(tmp))
+            export_mfa_stocks_to_csv(mfa, tmp, with_in_and_out=True)
+            after_both = sorted(os.listdir(tmp))
+        finally:
+            shutil.rmtree(tmp, ignore_errors=True)
+        want_flows = sorted(to_valid_file_name(n) + ".csv" for n in F)
+        want_stock = sorted(f"{to_valid_file_name(n)}_{q}.csv" for n in S for q in ("stock", "inflow", "outflow"))
+        w.ob("flow_files_written", after_flows == want_flows, info=f"{after_flows} want {want_flows}")
+        w.ob("flow_files_survive_the_stock_export", all(f_ in after_both for f_ in want_flows), info=f"missing {[f_ for f_ in want_flows if f_ not in after_both]}")
+        w.ob("directory_holds_exactly_the_exported_arrays", after_both == sorted(set(want_flows + want_stock)), info=str(after_both))
     else:
         calls, lossy = [], []
         orig = pd.DataFrame.to_csv
